@@ -202,6 +202,7 @@ def run(ck):
     validator_rules(ck)
     wiring_rules(ck)
     subset_rules(ck)
+    knot_rules(ck)
     ck.floor('C20.arith', 150)
     ck.floor('C20.validate', 100)
 
@@ -384,6 +385,8 @@ class GridDS:
     def abs_getitem(self, interp, key, node):
         if key in ('lat', 'lon'):
             return self.coord(key)
+        if key in getattr(self, 'variables', {}):
+            return GridVar(self, self.variables[key])
         from ..repo import AnalysisError
         raise AnalysisError(f'climatology dataset: variable {key!r} read outside the modelled subset path', node)
 
@@ -394,6 +397,28 @@ class GridDS:
             return {'lat': self.coord('lat', 'index' if name == 'indexes' else 'nd'), 'lon': self.coord('lon', 'index' if name == 'indexes' else 'nd')}
         from ..repo import AnalysisError
         raise AnalysisError(f'climatology dataset: attribute {name!r} outside the modelled subset path', node)
+
+
+class GridVar:
+    """a data variable of the climatology, (time, lat, lon) or (time, depth, lat, lon): subscripting it records which cells were asked for"""
+    def __init__(self, ds, has_depth):
+        self.ds, self.has_depth = ds, has_depth
+
+    def abs_getitem(self, interp, key, node):
+        from ..repo import AnalysisError
+        want = 4 if self.has_depth else 3
+        if not isinstance(key, tuple) or len(key) != want or key[0] != slice(None):
+            raise AbsRaise(__import__('sa.interp', fromlist=['ExcVal']).ExcVal('IndexError', (f'too many / too few indices for a {want}-dimensional variable: {key!r}',)), node) \
+                if isinstance(key, tuple) and len(key) != want else AnalysisError(f'climatology variable: subscript {key!r} not modelled', node)
+        depth = key[1] if self.has_depth else None
+        if depth is not None and not isinstance(depth, int):
+            raise AnalysisError('climatology variable: depth selector is not an integer position', node)
+        return SelectedCells(self.ds, depth, key[-2], key[-1])
+
+
+class SelectedCells:
+    def __init__(self, ds, depth, lat_sel, lon_sel):
+        self.ds, self.depth, self.lat_sel, self.lon_sel = ds, depth, lat_sel, lon_sel
 
 
 def positions(sel, n, node=None):
@@ -479,6 +504,62 @@ def subset_rules(ck):
         ck.ob('C20.subset', label, got == want, key=f'create_config:subset:{oname}{":zero-sum" if vname else ""}',
               what=f'{label}: [min, max, mean, variance] of the selected cells = {show_list(got)}, of the cells inside the box = {show_list(want)} '
                    f'(selected positions {captured[-1:] if captured else "none"})')
+    # one level deeper: the dataset is found through the creator's own configuration, the variable is subscripted by __get_daily_interp_subset itself
+    # (time, lat, lon for a 2-D field; time, depth level 0, lat, lon for a 3-D one), and only the interpolation in time is replaced
+    from ..interp import ExcVal
+    for dims in ('2d', '3d'):
+        for (oname, lats, lons), bbox in itertools.product(orders[:2], [boxes[0], boxes[3], [0, 0, 1, 1]]):
+            ds = GridDS(lats, lons)
+            ds.variables = {'TEMP_IN_FILE': dims == '3d'}
+            cellvalue = (lambda la, lo, depth: positive(la, lo) + (100 * depth if depth else 0))
+
+            def interp_hook(interp, fv, args, kwargs, node, lats=lats, lons=lons):
+                a = dict(zip(['self', 'var', 'time_slice'], args))
+                a.update(kwargs)
+                sel = a['var']
+                if not isinstance(sel, SelectedCells):
+                    from ..repo import AnalysisError
+                    raise AnalysisError('__daily_cubic_interp called with something that is not a cell selection of the climatology variable', node)
+                li, lj = positions(sel.lat_sel, len(lats), node), positions(sel.lon_sel, len(lons), node)
+                cells = [cellvalue(lats[i], lons[j], sel.depth) for i in li for j in lj]
+                if not cells:
+                    raise AbsRaise(ExcVal('ValueError', ('CubicSpline require y to the finite.',)), node)     # what the function raises for an empty / all-NaN selection
+                return Vec.fresh([El(X.num(v), False) for v in cells], kind='nd', dtype='f8')
+            inst = Instance(QCC)
+            cfg = {'clim': {'variables': {'temp': 'TEMP_IN_FILE'}, 'file_path': 'clim.nc'}}
+            if dims == '3d':
+                cfg['clim']['3d'] = True
+            inst.attrs['config'] = cfg
+            inst.attrs['datasets'] = {'clim': ds}
+            saved = dict(it.hooks)
+            it.hooks['QcConfigCreator.__daily_cubic_interp'] = interp_hook
+            label = f'create_config(bbox={bbox}) on a constant {dims} climatology found through the creator configuration, coordinates {oname}'
+            vc = {'variable': 'temp', 'bbox': list(bbox), 'start_time': '2020-01-01', 'end_time': '2020-02-01', 'tests': {
+                'gross_range_test': {'suspect_min': 'min', 'suspect_max': 'max', 'fail_min': 'mean', 'fail_max': 'std'}}}
+            inside = [positive(la, lo) for la in LATS for lo in LONS if bbox[1] <= la <= bbox[3] and bbox[0] <= lo <= bbox[2]]
+            try:
+                res = it.call(it.getattr(inst, 'create_config', None), [vc], {}, None)
+            except AbsRaise as e:
+                if inside:
+                    ck.violate('C20.subset', f'create_config:dataset-path:{dims}:raises-{e.exc.tname}', f'{label}: raises {e.exc.tname}{e.exc.args}')
+                else:
+                    ck.hold('C20.subset', label + ' (no cell inside the box: nothing is prescribed)')
+                continue
+            finally:
+                it.hooks.clear()
+                it.hooks.update(saved)
+            ck.count(1, distinct=('dataset-path', dims, oname, tuple(bbox)))
+            if not inside:
+                continue
+            mean = sum(inside) / len(inside)
+            want = [min(inside), max(inside), mean, sum((v - mean) ** 2 for v in inside) / len(inside)]
+            try:
+                sect = res['temp']['qartod']['gross_range_test']
+                got = [to_fr(x) for x in sect['suspect_span'] + sect['fail_span']]
+            except (KeyError, TypeError, ValueError) as e:
+                got = f'unreadable result ({e})'
+            ck.ob('C20.subset', label, got == want, key=f'create_config:dataset-path:{dims}:{oname}',
+                  what=f'{label}: [min, max, mean, variance] = {show_list(got)}, of the cells inside the box (depth level 0) = {show_list(want)}')
     ck.floor('C20.subset', 15)
 
 
@@ -501,3 +582,195 @@ def norm(v):
     if isinstance(v, (int, Fr)):
         return X.show(X.num(v))
     return repr(v)
+
+
+# ---- the time axis of the climatology: knots of the periodic spline ---------------------------------------------------------------
+class _Probe(Exception):
+    """ends the interpretation of __daily_cubic_interp at the point the rule wanted to see"""
+
+
+class Field3D:
+    """Stand-in for the (time, y, x) data of a climatology variable: only its first axis matters here. rows = labels of the time slices."""
+    def __init__(self, rows, flat=False):
+        self.rows, self.flat = list(rows), flat
+
+    def abs_getitem(self, interp, key, node):
+        from ..repo import AnalysisError
+        if isinstance(key, tuple) and key and isinstance(key[0], slice) and all(k == slice(None) for k in key[1:]):
+            return Field3D(self.rows[key[0]])
+        if isinstance(key, NanMask):
+            return Field3D(self.rows, flat=True)          # y[~isnan(y)]: the finite cells, flattened (the field has no NaN here)
+        raise AnalysisError(f'3-D field stand-in: subscript {key!r} not modelled', node)
+
+    def abs_getattr(self, interp, name, node):
+        from ..models import PyCallable
+        from ..repo import AnalysisError
+        if name == 'shape':
+            return (len(self.rows) * 4,) if self.flat else (len(self.rows), 2, 2)
+        if name == 'size':
+            return len(self.rows) * 4
+        if name == 'reshape':
+            def reshape(it, a, k, n):
+                if len(a) == 2 and a[0] == len(self.rows) and a[1] == -1:
+                    return Field3D(self.rows)
+                raise AnalysisError(f'3-D field stand-in: reshape{tuple(a)} of {len(self.rows)} time slices not modelled', n)
+            return PyCallable(reshape, 'reshape')
+        raise AnalysisError(f'3-D field stand-in: attribute {name!r} not modelled', node)
+
+    def abs_binop(self, interp, op, a, b, node):
+        from ..repo import AnalysisError
+        if isinstance(a, Field3D) and isinstance(b, Field3D) and len(a.rows) == len(b.rows) and op in ('Add', 'Sub'):
+            return Field3D([('mix', x, y) for x, y in zip(a.rows, b.rows)])
+        if isinstance(a, Field3D) and isinstance(b, (int, Fr)) and op in ('Div', 'Mult'):
+            return Field3D(a.rows)
+        raise AnalysisError(f'3-D field stand-in: operator {op} not modelled', node)
+
+    def abs_ext_call(self, interp, path, args, kw, node):
+        if path in ('numpy.concatenate', 'numpy.vstack') and isinstance(args[0], (list, tuple)) and all(isinstance(x, Field3D) for x in args[0]):
+            return Field3D([r for x in args[0] for r in x.rows])
+        if path == 'numpy.isnan' and args[0] is self:
+            return NanMask()
+        return NotImplemented
+
+
+class NanMask:
+    def abs_unaryop(self, interp, op, node):
+        return self
+
+
+class DayStamp:
+    """a calendar day (year, day of year): what _get_stats hands over as the ends of the requested date range"""
+    def __init__(self, year, doy):
+        self.year, self.doy = year, doy
+
+    def ordinal(self):
+        import datetime
+        return (datetime.date(self.year, 1, 1) + datetime.timedelta(days=self.doy - 1)).toordinal()
+
+    def abs_binop(self, interp, op, a, b, node):
+        from ..repo import AnalysisError
+        if op == 'Sub' and isinstance(a, DayStamp) and isinstance(b, DayStamp):
+            return DayDelta(a.ordinal() - b.ordinal())
+        raise AnalysisError('date stand-in: operator not modelled', node)
+
+    def abs_getattr(self, interp, name, node):
+        from ..repo import AnalysisError
+        if name == 'year':
+            return self.year
+        if name in ('dayofyear', 'day_of_year'):
+            return self.doy
+        raise AnalysisError(f'date stand-in: attribute {name!r} not modelled', node)
+
+    def abs_ext_call(self, interp, path, args, kw, node):
+        if path == 'pandas.Timestamp' and args and args[0] is self:
+            return self
+        return NotImplemented
+
+
+class DayDelta:
+    def __init__(self, days):
+        self.days = days
+
+    def abs_getattr(self, interp, name, node):
+        from ..repo import AnalysisError
+        if name == 'days':
+            return self.days
+        raise AnalysisError(f'timedelta stand-in: attribute {name!r} not modelled', node)
+
+
+class ClimVar:
+    def __init__(self, doys):
+        self.doys = list(doys)
+
+    def abs_getattr(self, interp, name, node):
+        from ..repo import AnalysisError
+        if name == 'time':
+            return ClimTime(self.doys)
+        if name == 'data':
+            return Field3D([('t', i) for i in range(len(self.doys))])
+        raise AnalysisError(f'climatology variable stand-in: attribute {name!r} not modelled', node)
+
+
+class ClimTime:
+    def __init__(self, doys, dt=False):
+        self.doys, self.is_dt = doys, dt
+
+    def abs_getattr(self, interp, name, node):
+        from ..repo import AnalysisError
+        if name == 'dt' and not self.is_dt:
+            return ClimTime(self.doys, True)
+        if name in ('dayofyear', 'day_of_year') and self.is_dt:
+            return Vec.fresh([El(X.num(d), False) for d in self.doys], kind='nd', dtype='i8')
+        raise AnalysisError(f'time coordinate stand-in: attribute {name!r} not modelled', node)
+
+
+def knot_rules(ck):
+    """__daily_cubic_interp builds the knots of a periodic cubic spline from the day-of-year of the climatology's time stamps and evaluates it on the
+    days of the requested range.  scipy accepts only strictly increasing knots with one row of data each, and raises otherwise - an error that
+    __get_daily_interp_subset reads as "no data in the box".  For a climatology that is constant in time the value of the spline is that constant
+    whatever the knots are, *provided the spline can be built and is evaluated on at least one day*: those two conditions are decided here,
+    for time axes stamped mid-month, on the first of the month (day 1 present), ending on day 366, daily through a leap year (both), and a single stamp,
+    and for date ranges inside a year, across new year (leap and common start year) and one day long."""
+    from ..models import PyCallable
+    from ..repo import AnalysisError, unparse
+    it = ck.runner.interp
+    cc = it.module('ioos_qc.config_creator.config_creator')
+    QCC = cc.globals['QcConfigCreator']
+    try:
+        fn = QCC.lookup('_QcConfigCreator__daily_cubic_interp')
+    except KeyError:
+        raise AnalysisError('anchor QcConfigCreator.__daily_cubic_interp not found')
+    mid = [15, 46, 74, 105, 135, 166, 196, 227, 258, 288, 319, 349]
+    first = [1, 32, 60, 91, 121, 152, 182, 213, 244, 274, 305, 335]
+    axes = {'stamped mid-month': mid, 'stamped on the first of the month': first, 'ending on day 366': mid[:-1] + [366],
+            'seasonal from 1 January': [1, 91, 182, 274], 'a single stamp': [180], 'two stamps': [100, 300]}
+    both = {'daily through a leap year (days 1 and 366 present)': list(range(1, 367)), 'stamps on day 1 and day 366': [1, 183, 366]}
+    ranges = {'January': (DayStamp(2020, 1), DayStamp(2020, 32)), 'across new year, common year first': (DayStamp(2019, 349), DayStamp(2020, 15)),
+              'across new year, leap year first': (DayStamp(2020, 350), DayStamp(2021, 15)), 'one day': (DayStamp(2021, 152), DayStamp(2021, 153)),
+              'whole common year': (DayStamp(2021, 1), DayStamp(2021, 365))}
+    for aname, doys in list(axes.items()) + list(both.items()):
+        for rname, (d0, d1) in ranges.items():
+            if aname in both and rname != 'January':
+                continue
+            label = f'__daily_cubic_interp(time axis {aname}; range {rname})'
+            seen = {}
+
+            def spline_ctor(interp, args, kw, node, seen=seen):
+                x, y = args[0], args[1]
+                seen['x'] = [int(e.d[1]) for e in x.els()] if isinstance(x, Vec) else list(x)
+                seen['rows'] = len(y.rows) if isinstance(y, Field3D) else None
+                seen['bc'] = kw.get('bc_type')
+
+                def evaluate(it2, a, k, n):
+                    seen['days'] = [int(v) for v in it2.iterate(a[0], n)]
+                    raise _Probe()
+                return PyCallable(evaluate, 'spline')
+            saved = it.models.ext_call.get('scipy.interpolate.CubicSpline')
+            it.models.ext_call['scipy.interpolate.CubicSpline'] = spline_ctor
+            inst = Instance(QCC)
+            outcome = None
+            try:
+                it.call_function(fn, [inst, ClimVar(doys), slice(d0, d1)], {}, None)
+                outcome = 'returned without evaluating the spline'
+            except _Probe:
+                outcome = 'ok'
+            except AbsRaise as e:
+                outcome = f'raises {e.exc.tname}{e.exc.args}'
+            finally:
+                if saved is None:
+                    it.models.ext_call.pop('scipy.interpolate.CubicSpline', None)
+                else:
+                    it.models.ext_call['scipy.interpolate.CubicSpline'] = saved
+            ck.count(1, distinct=('knots', aname, rname))
+            key_axis = 'days-1-and-366' if aname in both else 'time-axis'
+            if outcome != 'ok':
+                ck.violate('C20.knots', f'__daily_cubic_interp:{key_axis}:{outcome.split("(")[0]}', f'{label}: {outcome}')
+                continue
+            x = seen['x']
+            increasing = all(a < b for a, b in zip(x, x[1:]))
+            ck.ob('C20.knots', label + ' knots', increasing and seen['rows'] == len(x), key=f'__daily_cubic_interp:{key_axis}:knots-not-strictly-increasing',
+                  what=f'{label}: the spline is built on the knots {x[:4]}...{x[-3:]} with {seen["rows"]} rows of data: scipy requires strictly increasing knots with one row each '
+                       'and raises ValueError otherwise, which the caller takes for "no data in the bounding box" (the box is widened, the statistics are not those of the box)')
+            days = seen.get('days', [])
+            ck.ob('C20.knots', label + ' days', bool(days) and all(1 <= d <= 366 for d in days), key=f'__daily_cubic_interp:{key_axis}:no-day-evaluated',
+                  what=f'{label}: the spline is evaluated on the days {days[:5]}{"..." if len(days) > 5 else ""}: an empty or out-of-calendar list gives no statistics')
